@@ -246,7 +246,7 @@ func VerifC08Order(shape, site, order, mode int) {
 
 	zzDefineTrace()
 	scope := slip.NewScope()
-	zzBudget(scope, 5000)
+	zzBudget(scope, 800)
 	run := &zzRun{sink: &zzSink{}}
 	zzSinkCur = run.sink
 	sforms := make([]slip.Object, len(tops))
